@@ -201,6 +201,10 @@ func (p *Pool[K, V]) Put(key K, val V) {
 		}
 	}
 
+	// evicting for the global capacity may have emptied and deleted the list
+	// for this very key, so make sure the list we append to is registered.
+	p.entries[key] = local
+
 	ent := &entry[K, V]{key: key, val: val}
 	local.appendEntry(ent, (*entry[K, V]).localList)
 	p.order.appendEntry(ent, (*entry[K, V]).globalList)
